@@ -331,9 +331,18 @@ STUBS = cc.STUBS + ["odxtools.exceptions.strict_mode is flipped by the harness i
                     "operation under test)", "logging of downgraded problems is silenced"]
 
 
+# descriptions the standard does not allow (a string type with a numeric encoding): strict mode
+# reports them, lenient mode substitutes a fallback - which must not stick once strict is back
+ILLEGAL = [dict(dt="A_ASCIISTRING", enc="BCD-P", bl=16, bitpos=0, hl=True, bytepos=None, sidx=2),
+           dict(dt="A_UTF8STRING", enc="1C", bl=16, bitpos=0, hl=True, bytepos=None, sidx=1),
+           dict(dt="A_UNICODE2STRING", enc="BCD-UP", bl=16, bitpos=0, hl=True, bytepos=None, sidx=1),
+           dict(dt="A_ASCIISTRING", enc="SM", dct="minmax", min=0, max=4, term="ZERO", tail=True,
+                bitpos=0, bytepos=None, hl=True, sidx=2)]
+
+
 def configs(tier, seed):
     out = []
-    for a in cc.atoms(tier, seed):
+    for a in cc.atoms(tier, seed) + ILLEGAL:
         c = dict(a)
         c.update(harness="enc", id="enc/" + cc.atom_id(a), tail=a.get("tail", True),
                  build={k: v for k, v in a.items() if k not in ("vlen", "sidx", "slen")})
@@ -341,7 +350,7 @@ def configs(tier, seed):
             c["W"] = 48
         out.append(c)
     seen = set()
-    for a in cc.atoms(tier, seed):
+    for a in cc.atoms(tier, seed) + ILLEGAL:
         b = {k: v for k, v in a.items() if k not in ("vlen", "sidx", "slen")}
         key = json.dumps(b, sort_keys=True)
         if key in seen:
@@ -379,8 +388,11 @@ def configs(tier, seed):
                          tail=b.get("tail", True))
                 out.append(d)
     for name in ("table", "table-row-ref", "mux", "dtc", "dynlen-field", "static-field",
-                 "endmarker-field-mid", "length-key", "structure-bytesize", "physconst-reserved"):
+                 "endmarker-field-mid", "length-key", "structure-bytesize", "physconst-reserved",
+                 "endmarker-field-limited-end-dop", "static-field-minmax-last"):
         for n in ((2, 3, 4, 5) if tier == "quick" else range(0, 8)):
+            if name == "endmarker-field-limited-end-dop" and n > (4 if tier == "quick" else 5):
+                continue  # the probe of every item forks on the text table
             out.append({"id": f"compdec/{name}/len{n}", "harness": "compdec", "what": "request",
                         "name": name, "mlen": n, "build": {"what": "request", "name": name}})
     for fb in (0x22, 0x62, 0x63):
